@@ -267,7 +267,17 @@ pub fn run_seed_for<L: Layer>(layer: &L, seed: u64, config: u64, run: u64) -> u6
 
 /// A chunk that has not finished after this long is reported as a hang (liveness violation);
 /// a normal chunk takes milliseconds. Real time is used for nothing else.
-const HANG_AFTER: Duration = Duration::from_secs(300);
+const HANG_AFTER_DEFAULT_SECS: u64 = 120;
+
+fn hang_after() -> Duration {
+    // overridable only to test the watchdog itself
+    Duration::from_secs(
+        std::env::var("VERIF_HANG_SECS")
+            .ok()
+            .and_then(|s| s.parse().ok())
+            .unwrap_or(HANG_AFTER_DEFAULT_SECS),
+    )
+}
 
 /// Execute runs `from..to` sequentially in THIS process (child side of the driver; also used
 /// for exact prefix replays).
@@ -574,7 +584,7 @@ pub fn run_batch<L: Layer>(layer: &L, cfg: &BatchCfg) -> BatchResult<L::Case> {
                     std::thread::scope(|s2| {
                         s2.spawn(|| {
                             while !finished.load(Ordering::Relaxed) {
-                                if started.elapsed() > HANG_AFTER {
+                                if started.elapsed() > hang_after() {
                                     killed.store(true, Ordering::Relaxed);
                                     // SIGKILL through the shell-independent std API is on Child only;
                                     // use the pid with `kill` semantics via libc-free command
@@ -593,7 +603,7 @@ pub fn run_batch<L: Layer>(layer: &L, cfg: &BatchCfg) -> BatchResult<L::Case> {
                     if killed.load(Ordering::Relaxed) {
                         return Err(hang(format!(
                             "runs {from}..{to} did not finish within {}s in a fresh process",
-                            HANG_AFTER.as_secs()
+                            hang_after().as_secs()
                         )));
                     }
                     if !status.success() {
@@ -625,6 +635,9 @@ pub fn run_batch<L: Layer>(layer: &L, cfg: &BatchCfg) -> BatchResult<L::Case> {
                         }
                     }
                     Err(f) => {
+                        // a dead or hung process ends the batch: the remaining chunks would most
+                        // likely hang too, and one exact replay is enough
+                        stop.store(true, Ordering::Relaxed);
                         m.violating_runs += 1;
                         let key = f.violation.key();
                         match m.failures.iter().position(|g| g.violation.key() == key) {
